@@ -425,7 +425,44 @@ theorem acquired_locks_closed :
 leaving the pod and pool locks of the request held for ever. -/
 theorem no_reentrant_acquisition :
     Galaxy.Lockset.noReentrant Galaxy.Generated.Lockset.table Galaxy.Generated.Lockset.acqTrans
-      Galaxy.Generated.Lockset.selfReacquire = true := by decide +kernel
+      Galaxy.Generated.Lockset.acqEvents Galaxy.Generated.Lockset.keyedLockPools = true := by decide +kernel
+
+/-- Pins the hashed mutex tables behind the keyed locks: the per-pod lock (`lockPod` → `podLockPool`) and the
+deployment / pool lock (`LockDpPool`, and `LockPoolFunc` of the pool API which the server wires to it → `dpLockPool`)
+are TWO tables, allocated by two `keymutex.NewHashed` calls. -/
+theorem fact_keyed_lock_pools :
+    Galaxy.Lockset.poolOf Galaxy.Generated.Lockset.keyedLockPools Galaxy.Generated.Lockset.L_keyed_schedulerplugin_lockPod ≠
+      Galaxy.Lockset.poolOf Galaxy.Generated.Lockset.keyedLockPools Galaxy.Generated.Lockset.L_keyed_schedulerplugin_LockDpPool ∧
+    Galaxy.Lockset.poolOf Galaxy.Generated.Lockset.keyedLockPools Galaxy.Generated.Lockset.L_keyed_api_LockPoolFunc =
+      Galaxy.Lockset.poolOf Galaxy.Generated.Lockset.keyedLockPools Galaxy.Generated.Lockset.L_keyed_schedulerplugin_LockDpPool ∧
+    Galaxy.Generated.Lockset.keyedLockPools.length = 3 ∧ Galaxy.Generated.Lockset.keyedPoolSites.length = 2 := by decide
+
+/-- C18 "do not keep a lock held … every pod object": wherever a function takes a keyed lock while holding another
+(Filter / Preempt → getSubnet, unbind → unbindDpPod, resync: pod lock, then deployment / pool lock), the two locks come
+from DIFFERENT hashed tables.  Two keys of one `keymutex.NewHashed(n)` table may be the same mutex (hash(key) mod n), so a
+nesting inside one table would lock a non-reentrant mutex twice for the pod names whose two keys collide — a plain
+input, no interleaving needed. -/
+theorem nested_keyed_locks_use_distinct_pools :
+    Galaxy.Lockset.nestingsDistinctPools Galaxy.Generated.Lockset.keyedLockPools
+      (Galaxy.Lockset.keyedNestings Galaxy.Generated.Lockset.table Galaxy.Generated.Lockset.acqTrans
+        Galaxy.Generated.Lockset.acqEvents Galaxy.Generated.Lockset.keyedLockPools) = true := by decide +kernel
+
+/-- … and the tables are always taken in one order (pod table, then deployment / pool table; never the reverse): the
+order induced by all nestings is acyclic, so two requests cannot deadlock on two buckets either. -/
+theorem keyed_lock_order_acyclic :
+    Galaxy.Lockset.acyclic (Galaxy.Lockset.poolOrder Galaxy.Generated.Lockset.keyedLockPools
+      (Galaxy.Lockset.keyedNestings Galaxy.Generated.Lockset.table Galaxy.Generated.Lockset.acqTrans
+        Galaxy.Generated.Lockset.acqEvents Galaxy.Generated.Lockset.keyedLockPools)) = true := by decide +kernel
+
+/-- Non-vacuity: there ARE nestings (pod lock → pool lock) and exactly one order edge; the checkers reject a shared
+table and a reversed order. -/
+example : (Galaxy.Lockset.keyedNestings Galaxy.Generated.Lockset.table Galaxy.Generated.Lockset.acqTrans
+        Galaxy.Generated.Lockset.acqEvents Galaxy.Generated.Lockset.keyedLockPools).length ≥ 2 ∧
+    (Galaxy.Lockset.poolOrder Galaxy.Generated.Lockset.keyedLockPools
+      (Galaxy.Lockset.keyedNestings Galaxy.Generated.Lockset.table Galaxy.Generated.Lockset.acqTrans
+        Galaxy.Generated.Lockset.acqEvents Galaxy.Generated.Lockset.keyedLockPools)).length = 1 ∧
+    Galaxy.Lockset.nestingsDistinctPools [(4, 0), (5, 0)] [(7, 5, 4)] = false ∧
+    Galaxy.Lockset.acyclic [(1, 0), (0, 1)] = false := by decide +kernel
 
 /-- Non-vacuity: the tables are populated (locking functions, helpers that inherit their callees' locks). -/
 example : Galaxy.Generated.Lockset.acqDirect.length ≥ 30 ∧
